@@ -203,6 +203,21 @@ Proof.
       intros; apply Hab; lia.
 Qed.
 
+(** only the levels of declared variables matter *)
+Lemma D_indep_lt u a b : valid s u → (∀ j, j < nvars s → a j = b j) →
+  D s u a = D s u b.
+Proof.
+  remember (nvars s - lvl_of s u) as k eqn:Hk. revert u Hk.
+  induction (lt_wf k) as [k _ IH]. intros u Hk Hv Hab.
+  destruct (node_cases u Hv) as [[E _]|(t&Ht&?&Hlo&Hl&?&Hvl&Hvh&?&Hll&Hlh&?)].
+  - by rewrite !D_term.
+  - rewrite (D_step u a t), (D_step u b t) by done. f_equal.
+    rewrite <- (Hab (t_lvl t)) by lia.
+    destruct (a (t_lvl t)).
+    + eapply (IH (nvars s - lvl_of s (t_hi t))); try done. lia.
+    + eapply (IH (nvars s - lvl_of s (t_lo t))); try done. lia.
+Qed.
+
 Lemma D_upd_above u a i b : valid s u → i < lvl_of s u →
   D s u (upd a i b) = D s u a.
 Proof. intros. apply D_indep; [done|]. intros. apply upd_other. lia. Qed.
@@ -303,6 +318,20 @@ Theorem canonical_levels u v : valid s u → valid s v →
   (∀ a, D s u a = D s v a) → u = v.
 Proof.
   intros Hu Hv. apply (canonical_aux (nvars s)); try done; lia.
+Qed.
+
+(** by variable names *)
+Theorem canonical_names u v : valid s u → valid s v →
+  (∀ ρ, denv s u ρ = denv s v ρ) → u = v.
+Proof.
+  intros Hu Hv Heq. apply canonical_levels; try done. intros a.
+  set (ρ := fun x => match vars s !! x with Some l => a l | None => false end).
+  specialize (Heq ρ). unfold denv in Heq.
+  rewrite (D_indep_lt u a (fun l => match lvl2var s !! l with Some x => ρ x | None => false end)),
+          (D_indep_lt v a (fun l => match lvl2var s !! l with Some x => ρ x | None => false end));
+    try done.
+  all: intros j Hj; apply (inv_lvls _ HI) in Hj as [x Hx]; rewrite Hx; subst ρ; cbn;
+    apply (inv_vars _ HI) in Hx; by rewrite Hx.
 Qed.
 
 End sem.
